@@ -225,7 +225,19 @@ def atom_key(e, value=True):
             a, b = b, a
         return '%s %s %s' % (a, _RELTXT[kind], b), (lab == 'true') == value
     c, lab = truth(e)
-    return norm(c), (lab == 'true') == value
+    v = (lab == 'true') == value
+    cp = compare_parts(c)
+    if cp and isinstance(cp[1], (ast.Lt, ast.LtE, ast.Gt, ast.GtE)):
+        # every ordering test is read as a strict `x < y`:  a <= b  ==  not (b < a),  a > b  ==  b < a,  a >= b  ==  not (a < b)
+        a, b = norm(cp[0]), norm(cp[2])
+        if isinstance(cp[1], ast.Lt):
+            return '%s < %s' % (a, b), v
+        if isinstance(cp[1], ast.Gt):
+            return '%s < %s' % (b, a), v
+        if isinstance(cp[1], ast.LtE):
+            return '%s < %s' % (b, a), not v
+        return '%s < %s' % (a, b), not v
+    return norm(c), v
 
 
 def expand_condition(e, value=True):
@@ -251,6 +263,36 @@ def conditions(g, node, skip_labels=('exc',)):
             if node in guard_region(g, t, lab, skip_labels=skip_labels):
                 out |= expand_condition(t.ast, lab == 'true')
     return out
+
+
+def loop_entry_conditions(g, node, skip_labels=('exc',)):
+    """conditions that hold whenever *node* is reached: its control dependences plus, inside a `while True` loop, the outcomes of the
+    leading `if C: break` tests (each iteration passes them before reaching the node)"""
+    out = conditions(g, node, skip_labels)
+    for t in g.nodes:
+        if t.kind != 'test' or t.ast is None:
+            continue
+        for lab in ('true', 'false'):
+            nxt = [s for s, l in t.succ if l == lab]
+            if len(nxt) == 1 and nxt[0].kind == 'stmt' and isinstance(nxt[0].ast, (ast.Break, ast.Return, ast.Raise, ast.Continue)):
+                # the other outcome is the only way past this test; does every path to node since the last loop-back pass it?
+                if g.dominated_by(node, {t}, skip_labels=skip_labels)[0] and g.path(nxt[0], {node}, skip_labels=skip_labels) is None:
+                    # dominated by the test and not reachable through the jump => reached through the other outcome,
+                    # provided nothing reassigns the tested names in between (checked by the callers that need it)
+                    out |= expand_condition(t.ast, lab != 'true')
+    return out
+
+
+def known_nonempty(conds, var):
+    """does the condition set say that *var* is non-empty (truthy, != b'', != '', len(var) != 0)?"""
+    for a, v in conds:
+        if a == var and v:
+            return True
+        if not v and a in ("%s == b''" % var, "b'' == %s" % var, "%s == ''" % var, "'' == %s" % var, '0 == len(%s)' % var, 'len(%s) == 0' % var):
+            return True
+        if v and a == '0 < len(%s)' % var:
+            return True
+    return False
 
 
 def eval_conditions(g, node, sub):
